@@ -1,6 +1,9 @@
 package twig
 
-import "errors"
+import (
+	"errors"
+	"runtime"
+)
 
 // C01: rendering is repeatable and independent of everything rendered before. Public API only.
 
@@ -148,8 +151,12 @@ func VH_C01_History() {
 	other := vhC01Engine(name2)
 	tag := "tpl:" + name + " other:" + name2 + " hist:"
 	for i := 0; i < h; i++ {
-		op := symChoice(8)
+		op := symChoice(9)
 		switch op {
+		case 8: // a garbage collection: sync.Pool contents are dropped
+			runtime.GC()
+			runtime.GC()
+			tag += "G"
 		case 0: // nothing
 			tag += "-"
 		case 1:
